@@ -13,6 +13,19 @@ import (
 	"go.uber.org/zap"
 )
 
+// c18Ctx: the context handed to Start / Shutdown: 0 live, 1 already cancelled, 2 deadline already expired
+func c18Ctx(kind int) (context.Context, context.CancelFunc) {
+	switch kind {
+	case 1:
+		ctx, cf := context.WithCancel(context.Background())
+		cf()
+		return ctx, cf
+	case 2:
+		return context.WithDeadline(context.Background(), time.Now().Add(-time.Second))
+	}
+	return context.Background(), func() {}
+}
+
 func c18Code(err error) int {
 	switch err {
 	case nil:
@@ -304,6 +317,8 @@ func TestVerifC18RC(t *testing.T) {
 		{1, 0, 0, 2, 1, 2, 1, 2, 1, 2}, // shutdown without start; two sharers
 		{0, 0, 0, 1, 2, 1, 2, 1, 2},    // three sharers leave one by one (memory high all the time: they leave while refusing)
 		{0, 0, 2, 1, 1, 0, 2},          // two sharers, refusing, both leave, one comes back (memory high all the time)
+		{0, 2, 1, 2, 2, 0, 2, 1, 2},    // every Start / Shutdown with a DEAD context (cancelled / expired): a user that left has left
+		{0, 0, 0, 2, 1, 1, 1, 2, 2},    // three sharers leave with dead contexts: the checker must stop
 	}
 	const soft = uint64(80 << 20)
 	for _, idx := range vCases(vN(1500)) {
@@ -392,12 +407,27 @@ func TestVerifC18RC(t *testing.T) {
 					}
 					lastRefuse = now
 				}
+				// the context of every Start / Shutdown: live, already cancelled or already expired (corpus cases 4-5: all dead)
+				ctxKind := func() int {
+					if idx == 4 || idx == 5 {
+						return 1 + (idx+users)%2
+					}
+					if idx < 4 || r.IntN(3) != 0 {
+						return 0
+					}
+					return 1 + r.IntN(2)
+				}
+				deadCtx := 0
+				_ = deadCtx
 				for _, op := range ops {
 					opReads = reads
 					switch op {
 					case 0:
-						out.Linef("op start now=%d", int64(time.Since(start)))
-						err, p := call("start", func() error { return ml.Start(context.Background(), nil) })
+						ck := ctxKind()
+						out.Linef("op start now=%d ctx=%d", int64(time.Since(start)), ck)
+						ctx, cf := c18Ctx(ck)
+						err, p := call("start", func() error { return ml.Start(ctx, nil) })
+						cf()
 						if p {
 							return
 						}
@@ -408,8 +438,11 @@ func TestVerifC18RC(t *testing.T) {
 						}
 						users++
 					case 1:
-						out.Linef("op shutdown")
-						err, p := call("shutdown", func() error { return ml.Shutdown(context.Background()) })
+						ck := ctxKind()
+						out.Linef("op shutdown ctx=%d", ck)
+						ctx, cf := c18Ctx(ck)
+						err, p := call("shutdown", func() error { return ml.Shutdown(ctx) })
+						cf()
 						if p {
 							return
 						}
